@@ -184,8 +184,9 @@ def array_binop(op, a, b):
             # array division does not raise: 0 / 0 is NaN (x / 0 for x != 0 is an infinity: not modelled, left unconstrained = any real)
             from .core import NAN
             r = z3.If(z3.And(y == 0, x == 0), NAN, r)
-        if dt.kind in "iu" and dt.itemsize < 8 and op in ("Add", "Sub", "Mult"):
-            # 64-bit integers are treated as mathematical integers (A-INT64: indices / counts never reach 2^63)
+        if dt.kind in "iu" and (dt.itemsize < 8 or dt.kind == "u") and op in ("Add", "Sub", "Mult"):
+            # signed 64-bit integers are treated as mathematical integers (A-INT64: indices / counts never reach 2^63);
+            # unsigned 64-bit arithmetic wraps at 0 (a - b with a < b), which ordinary sample counts do reach: modelled exactly
             lo, hi = A.int_range(dt)
             m = hi - lo + 1
             r = ((r - lo) % m) + lo
@@ -221,7 +222,7 @@ def unop(op, a):
                 raise TypeError("The numpy boolean negative, the `-` operator, is not supported")
             def neg(x):
                 r = -x
-                if a.dtype.kind in "iu" and a.dtype.itemsize < 8:
+                if a.dtype.kind in "iu" and (a.dtype.itemsize < 8 or a.dtype.kind == "u"):
                     lo, hi = A.int_range(a.dtype)
                     r = ((r - lo) % (hi - lo + 1)) + lo
                 return r
@@ -300,8 +301,13 @@ def compare(op, a, b):
             dt = np.result_type(bb.dtype, _pytype(a))
         elif _weak(b) and not _weak(a):
             dt = np.result_type(aa.dtype, _pytype(b))
+        # NumPy 2: an integer array compared with a Python int compares by value, also when the int is outside the array dtype's range
+        wa = _weak(a) and not _weak(b) and dt.kind in "iu" and aa.dtype.kind in "iu"
+        wb = _weak(b) and not _weak(a) and dt.kind in "iu" and bb.dtype.kind in "iu"
+
         def cmp(x, y):
-            x, y = A.cast_term(aa.dtype, dt, x), A.cast_term(bb.dtype, dt, y)
+            x = x if wa else A.cast_term(aa.dtype, dt, x)
+            y = y if wb else A.cast_term(bb.dtype, dt, y)
             r = scalar_compare(op, x, y)
             n = z3.simplify(z3.Or(struct_isnan(x), struct_isnan(y)))
             if z3.is_false(n):
